@@ -121,6 +121,10 @@ def run(tier):
     import mc_dag
 
     mc_dag.run_mc(chk, quick, which="C04")
+    import toy
+
+    for m_ in toy.run_toy(chk, quick, rnd, "C04", kinds=None)[:5]:
+        chk.violation(f"C04|toy-universe|target={m_['target']}|{m_['what'][:40]}", f"toy universe (MC_Dag configuration {m_['id']}): {m_['what']} for target {m_['target']}", m_)
     dates = ["2023-01-01"] + rnd.sample([d for d in DATES if d != "2023-01-01"], 2 if quick else len(DATES) - 1)
     npop = 12 if quick else 120
     jobs = [(dates[t % len(dates)], rnd.randrange(1 << 30), t, 4 if quick else 5, str(chk.work)) for t in range(npop)]
